@@ -7,7 +7,7 @@ import os
 import shutil
 import time
 
-from vf import boot, catalog, gen, inject, model, sched
+from vf import boot, catalog, conc, gen, inject, model, sched
 from vf.session import make_scratch
 
 PROPERTY = "C10"
@@ -405,13 +405,13 @@ def part_b(spec, out):
         # directed witness of known finding D18 (kept so that the finding is re-observed on every run)
         w = ["op", "setitem", ["k", 1], "x"] if info.kind == "dict" else ["op", "append", [1], "x"]
         progs.insert(0, {"threads": [[["filename"]], [w]], "buffered": False, "repoint_shared_object": True})
-    t0 = time.time()
+    t0 = conc.clock()
     budget = 30 if spec["tier"] == "quick" else 1500
     c = out["counters"]
     sig = {"cls": info.name, "stratum": "deadlock_search"}
     try:
         for prog in progs:
-            if time.time() - t0 > budget:
+            if conc.clock() - t0 > budget:
                 c["budget_cut_programs"] = c.get("budget_cut_programs", 0) + 1
                 continue
             nthreads = len(prog["threads"])
